@@ -128,6 +128,8 @@ struct thrmon {
 	unsigned long long c[VC_COUNT];
 	_Atomic unsigned long long progress;
 	double last_gvt;
+	double last_loop_gvt; /* last GVT handed to the thread in the main loop (values of reductions completed during shutdown do not commit anything:
+	                         by then remote messages are discarded on arrival) */
 	double *gvts;
 	unsigned n_gvts, cap_gvts;
 	struct vh_window *wins;
@@ -829,6 +831,8 @@ void rs_verif_hook(unsigned point, const void *p, uint64_t a, uint64_t b)
 			if(g < t->last_gvt)
 				vh_violation("C04", "gvt-decreased", "thread %u was told GVT %a after %a", rid, g, t->last_gvt);
 			t->last_gvt = g;
+			if(!b)
+				t->last_loop_gvt = g;
 			if(t->n_gvts == t->cap_gvts) {
 				t->cap_gvts = t->cap_gvts ? t->cap_gvts * 2 : 64;
 				t->gvts = realloc(t->gvts, t->cap_gvts * sizeof(*t->gvts));
@@ -871,7 +875,7 @@ void rs_verif_hook(unsigned point, const void *p, uint64_t a, uint64_t b)
 				return;
 			atomic_fetch_and_explicit(&m->verif_st, ~(uint32_t)ST_IN_HIST, memory_order_relaxed);
 			/* still held at shutdown with timestamp below the last GVT: committed */
-			if(m->dest_t < t->last_gvt && !(m->raw_flags & MSG_FLAG_ANTI)) {
+			if(m->dest_t < t->last_loop_gvt && !(m->raw_flags & MSG_FLAG_ANTI)) {
 				struct ftmp f = {.ts = m->dest_t, .type = m->m_type, .size = m->pl_size, .plh = vh_cfg.payload_hash ? vh_cfg.payload_hash(m->pl, m->pl_size) : 0, .is_evt = 1};
 				CNT(VC_FINI_COMMITTED);
 				commit_event((uint64_t)(lp - lps), lm, &f, NULL, "held at shutdown below the last GVT");
